@@ -27,7 +27,7 @@ def dispatch (line : String) : String :=
         else if prop = "c12" then C12.handle op ns
         else if prop = "c15" then C15.handle op ns
         else if prop = "c05" then C05.handle op ns
-        else if prop = "c04" then C04.handle op ns
+        else if prop = "c04" then (if op = "schallenges" then Stark.handle "challenges" ns else C04.handle op ns)
         else if prop = "c16" then C16.handle op ns
         else if prop = "c07" then C07.handle op ns
         else if (prop = "c01" || prop = "c08") && op = "prog" then C01.handle op ns
